@@ -53,6 +53,10 @@
 //     dropped; methods listed under "identity" return their receiver;
 //   - "recv_nonnil" models a pointer receiver as the struct itself (the
 //     assumption that callers never pass nil is stated where it is used).
+//   - a pointer to an abstract (library) struct has no value in Lean: `p == nil`
+//     / `p != nil` on it is an opaque Boolean parameter `e<k>_<p>_isNil` (one per
+//     source text of p), and a definition `x := e` of a local of an abstract
+//     type binds nothing (a call on the right-hand side is still traced).
 //
 // Anything else is a translation error: the generated definition is replaced
 // by a marker that makes the Tie theorem fail, i.e. a broken obligation.
@@ -706,6 +710,24 @@ func (c *fctx) binary(x *ast.BinaryExpr) ex {
 		if id, ok := x.Y.(*ast.Ident); ok && id.Name == "nil" && c.p.info.Uses[id] == types.Universe.Lookup("nil") {
 			if c.isRecvVal(x.X) {
 				return ex{code: fmt.Sprint(x.Op == token.NEQ)}
+			}
+			if _, isPtr := tx.Underlying().(*types.Pointer); isPtr && c.t.leanType(tx) == "" {
+				// pointer to an abstract (library) struct: its nil-ness is an opaque Boolean
+				key := "isNil " + c.show(x.X)
+				if c.opaqueVals == nil {
+					c.opaqueVals = map[string]string{}
+				}
+				name, seen := c.opaqueVals[key]
+				if !seen {
+					c.nOpaque++
+					name = fmt.Sprintf("e%d_%s_isNil", c.nOpaque, sanitize(lastName(c.show(x.X))))
+					c.opaque = append(c.opaque, fmt.Sprintf("(%s : Bool)", name))
+					c.opaqueVals[key] = name
+				}
+				if x.Op == token.NEQ {
+					return ex{code: "(!" + name + ")"}
+				}
+				return ex{code: name}
 			}
 			a := c.expr(x.X)
 			m := "isNone"
@@ -1507,6 +1529,13 @@ func (c *fctx) assignStmt(x *ast.AssignStmt, rest []ast.Stmt) string {
 	}
 	if len(x.Lhs) == len(x.Rhs) {
 		if len(x.Lhs) == 1 {
+	if id, ok := x.Lhs[0].(*ast.Ident); ok && len(x.Lhs) == 1 && len(x.Rhs) == 1 && x.Tok == token.DEFINE && id.Name != "_" && c.t.leanType(c.lhsType(id)) == "" {
+		// `x := e` with x of an abstract (library) type binds nothing; a call on the right is still traced
+		if call, isCall := x.Rhs[0].(*ast.CallExpr); isCall && c.trace && !c.matches(c.spec.Pure, call) {
+			return "let tr := tr ++ [" + c.traceEntry(call) + "]\n" + c.stmts(rest)
+		}
+		return c.stmts(rest)
+	}
 			return c.assign(x.Lhs[0], c.exprAs(x.Rhs[0], c.lhsType(x.Lhs[0])), rest, nil)
 		}
 		// parallel assignment: evaluate all, then assign
